@@ -28,6 +28,7 @@ type Sim struct {
 	t0     int64
 	Opt    SimOptions
 	aliasRejected []aliasRej
+	curOp  *Op
 }
 
 type SimOptions struct {
@@ -142,6 +143,7 @@ func (s *Sim) Run(ops []Op) bool {
 }
 
 func (s *Sim) Step(op *Op) {
+	s.curOp = op
 	s.tr("#%d %s c=%d %s", s.M.Step, op.Kind, op.C, opBrief(op))
 	if op.Kind != "connect" && op.Kind != "tick" && op.C < len(s.Slots) && !s.Slots[op.C].connected && !isGlobalOp(op.Kind) {
 		s.M.count("skipped_ops_not_connected")
@@ -349,6 +351,7 @@ func (s *Sim) endStep() {
 		sl.Exp = keep
 	}
 	m.dropsAllowed = 0
+	s.progressCheck()
 }
 
 func (s *Sim) onBrokerClosed(sl *Slot) {
@@ -494,6 +497,9 @@ func (s *Sim) checkResponse(sl *Slot, e *Expect, p *rc.Packet) {
 		}
 		if p.Type == rc.PUBREC && sl.ownQ2[p.PacketID] && p.Reason < 0x80 {
 			// complete our own QoS 2 publish
+			if sl.Sess != nil && (len(sl.inflight) > 0 || len(sl.Sess.Out) > 0) {
+				sl.Sess.Taint["own_qos2_released_while_outbound_unacked"] = true
+			}
 			s.clientSend(sl, &rc.Packet{Type: rc.PUBREL, Version: sl.Ver, PacketID: p.PacketID})
 			sl.expect(&Expect{Kind: rc.PUBCOMP, PID: p.PacketID, Rule: "C07/no-response", What: "PUBCOMP for PUBREL", Step: m.Step, SP: -1})
 			if sl.Sess != nil {
@@ -639,16 +645,24 @@ func (s *Sim) onBrokerPublish(sl *Slot, rp *eng.RxPacket) {
 	}
 	attrs := sl.taintAttrs()
 	// ---- C12 order: an earlier owed message of the same publisher/topic must not be overtaken
-	for _, e := range sl.Exp {
-		if e == exp {
-			break
+	// first transmissions per session: a message published later by the same client on the same
+	// topic and delivered at the same QoS must not have had its first transmission earlier.
+	if sl.Sess != nil && exp.Group == nil && !msg.IsWill && !(exp.Out != nil && exp.Out.Retained) {
+		if sl.Sess.FirstTx == nil {
+			sl.Sess.FirstTx = map[string]*txRec{}
 		}
-		if !e.Done && e.Kind == rc.PUBLISH && e.Msg != nil && e.Group == nil && e.Msg.From == msg.From && e.Msg.Topic == msg.Topic && !e.Msg.IsWill && sameQoS(e, exp) && e.Msg.Step <= msg.Step && !(e.Out != nil && e.Out.Retained) && !(exp.Out != nil && exp.Out.Retained) {
-			a := sl.taintAttrs()
-			a["overtaken_deferred"] = fmt.Sprint(e.Out != nil && e.Out.Deferred)
-			a["resend"] = fmt.Sprint(p.Dup)
-			m.flag("C12/out-of-order", a, "slot %d (%s): %s arrived before earlier %s (same publisher %s, topic %s)", sl.Idx, sl.ClientID, msg.ID, e.Msg.ID, msg.From, msg.Topic)
-			break
+		if _, seen := sl.Sess.FirstTx[msg.ID]; !seen {
+			for _, y := range sl.Sess.FirstTx {
+				if y.From == msg.From && y.Topic == msg.Topic && y.QoS == p.QoS && y.No > msgNo(msg) {
+					a := sl.taintAttrs()
+					a["first_tx_is_resend"] = fmt.Sprint(p.Dup)
+					a["was_deferred"] = fmt.Sprint(exp.Out != nil && exp.Out.WasDeferred)
+					m.flag("C12/out-of-order", a, "slot %d (%s): first transmission of %s arrives after that of %s, which the same client (%s) published later on %s (both delivered at QoS %d)", sl.Idx, sl.ClientID, msg.ID, y.ID, msg.From, msg.Topic, p.QoS)
+					break
+				}
+			}
+			sl.Sess.FirstTx[msg.ID] = &txRec{ID: msg.ID, From: msg.From, Topic: msg.Topic, QoS: p.QoS, No: msgNo(msg), Seq: rp.Seq}
+			m.count("first_transmissions")
 		}
 	}
 	// ---- field checks
